@@ -21,15 +21,25 @@ LEVEL = "exploration"
 CHUNK = 20  # values per output-side model
 
 
+def _always(tree):
+    """Trees that every tier runs: each of them exercises one copy of the per-type closures directly
+    (built-in typeRef, simple, collection-of-simple, with and without allowed values, and references to them)."""
+    if "builtin" in tree:
+        return True
+    d = g.depth(tree["root"])
+    return d <= 1 or (d == 2 and tree["root"]["k"] == "ref")
+
+
 def _select(trees, tier, seed):
     if tier != "quick":
         return list(range(len(trees)))
     stride = max(1, len(trees) // 600)
     rng = rng_for(seed, "c11-stride")
-    picked = []
-    for block in chunks(list(range(len(trees))), stride):
+    picked = [i for i, t in enumerate(trees) if _always(t)]
+    rest = [i for i, t in enumerate(trees) if not _always(t)]
+    for block in chunks(rest, stride):
         picked.append(block[rng.randrange(len(block))])
-    return picked
+    return sorted(picked)
 
 
 def _root_class(tree):
@@ -249,8 +259,8 @@ def run(rep, tier, seed):
         "component type with 1-2 components, isCollection of each} plus the 8 built-in type names used directly as typeRef "
         "(%d trees after pruning: of a component pair one side varies, the other is a witness - a plain simple type or a collection of one); per tree one conforming "
         "value and one value per (position, violation kind); each value is offered as INPUT (decision and decision-service route) and "
-        "produced as RESULT of a decision, a BKM and a decision service typed by the tree. quick: one tree of every %s consecutive "
-        "trees (seeded choice inside the block); thorough: all. A case is distinct by (tree shape class, violation kind, side); "
+        "produced as RESULT of a decision, a BKM and a decision service typed by the tree. quick: every tree of depth 1, every reference to one and the built-in names (120 trees) plus one "
+        "tree of every %s consecutive others (seeded choice inside the block); thorough: all. A case is distinct by (tree shape class, violation kind, side); "
         "all of them are non-trivial (a typed boundary is crossed by a non-empty value or null)."
     )
     rep.assumptions = [
